@@ -30,7 +30,7 @@ RULE = ('generated exported classes (1-3 objects; interfaces with random member 
 STATE_MEASURE = 'distinct (call kind, outcome kind, reply kind) triples'
 PROBES = ['unknown-object', 'unknown-method', 'invalid-args', 'interface-omitted',
           'no-reply-dispatched', 'deferred-fired-out-of-order', 'deferred-fired-after-loss',
-          'same-member-two-interfaces', 'dbusCaller-requested', 'inherited-interface-called',
+          'same-member-two-interfaces', 'dbusCaller-requested', 'inherited-interface-called', 'interface-bound-across-classes',
           'unencodable-return', 'invalid-error-name', 'peer-ping', 'several-calls-in-flight']
 COMPONENTS = {
     'real': ['txdbus.objects.DBusObjectHandler.handleMethodCallMessage / DBusObject.executeMethod',
@@ -342,6 +342,8 @@ def scenario(ctx):
                 sim.probe('same-member-two-interfaces')
             if cs.base and cs.base.iface(c['iface']):
                 sim.probe('inherited-interface-called')
+                if cs.split_iface == c['iface']:
+                    sim.probe('interface-bound-across-classes')
         if rec['obj'] is not o or not okm:
             raise Violation('C10/wrong-implementation', 'binding',
                             'call %s.%s on %s ran %r' % (c['iface'], c['member'], c['path'], m))
